@@ -2,7 +2,8 @@
    Read-side model: Ledger/Reads.v (mirrors of the resource handlers).  postings_in s w = the postings of the stored
    transactions whose (effective | insertion) date lies in the window w = [oot, pit] (bounds included). *)
 From Coq Require Import List ZArith String Bool Lia.
-From LV Require Import Base.Util Ledger.Types Ledger.Core Ledger.VolProofs Ledger.PcvProofs Ledger.Invariants Ledger.EffProofs Ledger.Reads Ledger.ReadProofs Ledger.InsPitProofs.
+From LV Require Import Base.Util Ledger.Types Ledger.Core Ledger.VolProofs Ledger.PcvProofs Ledger.Invariants Ledger.EffProofs Ledger.Reads Ledger.ReadProofs Ledger.InsPitProofs Ledger.GroupProofs.
+From LV Require Ledger.Filter.
 Import ListNotations.
 Open Scope Z_scope.
 
@@ -68,6 +69,54 @@ Proof.
 Qed.
 Print Assumptions C05_transactions_listed_iff.
 
+(* (6) GROUPED volumes (GetVolumesWithBalances with groupBy = g; g = 0: no grouping).  [truncate_addr g a] = the first g
+   ':'-separated segments of a ([Filter.segs] = strings.Split(a, ":")); [group_volumes g] = Project of resource_volumes.go.
+   For every duplicate-free listing (every listing read_volumes returns is, (6c)): the grouped row of (prefix, asset) is the
+   componentwise sum of the rows of the accounts whose truncated address is that prefix ... *)
+Theorem C05_grouped_volumes_sum : forall g v p c, NoDup (map fst v) ->
+  vget (group_volumes g v) (p, c) = vsum (map snd (filter (fun kv => key_eqb (truncate_addr g (fst (fst kv)), snd (fst kv)) (p, c)) v)).
+Proof. exact group_volumes_vget. Qed.
+Print Assumptions C05_grouped_volumes_sum.
+
+(* (6b) ... the grouped listing has exactly the truncated keys, each once (no row is lost, none invented, none repeated) ... *)
+Theorem C05_grouped_volumes_keys : forall g v, NoDup (map fst v) ->
+  NoDup (map fst (group_volumes g v)) /\
+  forall k, In k (map fst (group_volumes g v)) <-> exists a c, In (a, c) (map fst v) /\ k = (truncate_addr g a, c).
+Proof. intros g v Hn. split; [apply group_volumes_nodup; exact Hn | intros k; apply group_volumes_keys]. Qed.
+Print Assumptions C05_grouped_volumes_keys.
+
+(* (6c) ... over histories: after any history, for any window and date mode, the grouped read is the grouping of the
+   ungrouped read of the same query, whose rows are the folds of (1) / C02 and are pairwise distinct; hence the sum formula *)
+Theorem C05_grouped_volumes_history : forall f h w g u, read_volumes f (run f h) w = Some u ->
+  read_volumes_grouped f (run f h) w g = Some (group_volumes g u) /\ NoDup (map fst u) /\
+  forall p c, vget (group_volumes g u) (p, c)
+              = vsum (map snd (filter (fun kv => key_eqb (truncate_addr g (fst (fst kv)), snd (fst kv)) (p, c)) u)).
+Proof.
+  intros f h w g u Hu. pose proof (read_volumes_nodup f h w u Hu) as Hn. split; [|split].
+  - unfold read_volumes_grouped. rewrite Hu. reflexivity.
+  - exact Hn.
+  - intros p c. apply group_volumes_vget. exact Hn.
+Qed.
+Print Assumptions C05_grouped_volumes_history.
+
+(* (6d) grouping keeps the total input and the total output of every asset (so C01 carries over to grouped listings) *)
+Theorem C05_grouped_totals_preserved : forall g c v,
+  total_in c (group_volumes g v) = total_in c v /\ total_out c (group_volumes g v) = total_out c v.
+Proof. exact group_volumes_totals. Qed.
+Print Assumptions C05_grouped_totals_preserved.
+
+(* (6e) the truncation: an address of at most g segments is its own group, a group address has at most g segments and
+   grouping it again changes nothing; g = 0 is the identity *)
+Theorem C05_truncate_addr : forall g a,
+  truncate_addr 0 a = a /\
+  ((List.length (Filter.segs a) <= g)%nat -> truncate_addr g a = a) /\
+  Filter.segs (truncate_addr (S g) a) = firstn (S g) (Filter.segs a) /\
+  truncate_addr g (truncate_addr g a) = truncate_addr g a.
+Proof.
+  intros g a. split; [reflexivity|]. split; [apply truncate_addr_short|]. split; [apply segs_truncate | apply truncate_addr_idem].
+Qed.
+Print Assumptions C05_truncate_addr.
+
 Local Open Scope string_scope.
 (* non-vacuity: t1 dated 100 (inserted at 1000), t2 back-dated 50 (inserted 1001), t3 dated 200 (inserted 1002) *)
 Example C05_example :
@@ -79,4 +128,15 @@ Example C05_example :
   read_volumes f s {| w_pit := Some 1001; w_oot := None; w_ins := true |} = Some [(("world", "USD"), (0, 17)); (("alice", "USD"), (17, 0))] /\
   vget (volumes_at s 100 false) ("alice", "USD") = (17, 0) /\ vget (volumes_at s 1000 true) ("alice", "USD") = (7, 0) /\
   map ar_addr (read_accounts f s (Some 49)) = [] /\ map tr_id (read_transactions f s (Some 100)) = [1; 2].
+Proof. vm_compute. repeat split; reflexivity. Qed.
+
+(* grouped volumes on a non-trivial listing: users:1 and users:2:main / users:2:sav merge at level 1, the two users:2:* at
+   level 2, nothing at level 3; totals are kept *)
+Example C05_grouped_example :
+  let v := [(("users:1", "USD"), (5, 1)); (("users:2:main", "USD"), (7, 0)); (("bank", "USD"), (0, 11)); (("users:2:sav", "USD"), (1, 2)); (("users:1", "EUR"), (2, 2))] in
+  group_volumes 1 v = [(("users", "USD"), (13, 3)); (("bank", "USD"), (0, 11)); (("users", "EUR"), (2, 2))] /\
+  group_volumes 2 v = [(("users:1", "USD"), (5, 1)); (("users:2", "USD"), (8, 2)); (("bank", "USD"), (0, 11)); (("users:1", "EUR"), (2, 2))] /\
+  group_volumes 3 v = v /\ group_volumes 0 v = v /\
+  truncate_addr 2 "users:2:main" = "users:2" /\ truncate_addr 5 "a:b" = "a:b" /\ truncate_addr 1 "" = "" /\
+  total_in "USD" (group_volumes 1 v) = 13 /\ total_out "USD" v = 14.
 Proof. vm_compute. repeat split; reflexivity. Qed.
